@@ -177,7 +177,7 @@ def _run(cmd):
     return r.returncode, r.stdout, cmd
 
 
-def build(modules, outdir, src_dir=None, repo=REPO, jobs=JOBS, opt='-O2'):
+def build(modules, outdir, src_dir=None, repo=REPO, jobs=JOBS, opt='-O2', extra_cflags=None):
     """compile `modules` (None = all) into outdir/<pkg path>/<name>.abi3.so; returns info dict"""
     t0 = time.time()
     exts_all = read_extensions(repo)
@@ -187,7 +187,7 @@ def build(modules, outdir, src_dir=None, repo=REPO, jobs=JOBS, opt='-O2'):
     present = {e.name for e in exts_all}
     wanted = _resolve(exts_all, modules)
     t_probe = time.time() - t0
-    cflags = base_cflags(opt)
+    cflags = base_cflags(opt) + list(extra_cflags or [])
     compile_jobs, link_jobs, sofiles = [], [], {}
     for e in wanted:
         objs = []
@@ -279,7 +279,7 @@ class OverlayPath(str):
 
 
 @contextlib.contextmanager
-def overlay(modules=None, src_dir=None, repo=REPO, jobs=JOBS, opt='-O2', keep=False):
+def overlay(modules=None, src_dir=None, repo=REPO, jobs=JOBS, opt='-O2', keep=False, extra_cflags=None):
     """context manager: build `modules` (None = all of setup.py) from the current tree, yield the overlay path"""
     tmp = tempfile.mkdtemp(prefix='verif_ov_')
     for forbidden in (os.path.realpath(repo), os.path.realpath(VERIF)):
@@ -288,7 +288,7 @@ def overlay(modules=None, src_dir=None, repo=REPO, jobs=JOBS, opt='-O2', keep=Fa
             raise BuildError('temp dir %s lies inside %s; set TMPDIR' % (tmp, forbidden))
     try:
         t0 = time.time()
-        info = build(modules, tmp, src_dir=src_dir, repo=repo, jobs=jobs, opt=opt)
+        info = build(modules, tmp, src_dir=src_dir, repo=repo, jobs=jobs, opt=opt, extra_cflags=extra_cflags)
         root = os.path.join(tmp, 'ov')
         make_overlay(root, info, repo)
         shutil.rmtree(os.path.join(tmp, 'so'), ignore_errors=True)
